@@ -455,6 +455,20 @@ pub fn crowded_and_losing(w: &Worker, thorough: bool, idx: &mut usize, judge: &d
             }
         }
     }
+    // the largest depth limits on positions whose search stays tiny at any depth
+    for p in spos::DEEP.iter() {
+        for n in [254u128, 255] {
+            *idx += 1;
+            if !w.mine(*idx) {
+                continue;
+            }
+            let Ok((board, pos, _)) = searchrun::open(p.fen, &spos::hist(p)) else { continue };
+            let c = case_for(p, &Limits { depth: Some(n), ..Default::default() }, Cut::ClockNever);
+            let out = searchrun::run_within(&board, &c, &fresh, std::time::Duration::from_secs(120));
+            w.count("searches_with_maximal_depth_limit", 1);
+            judge(w, &c, p, &pos, &out, "max-depth");
+        }
+    }
     let list: Vec<&SPos> = P9.iter().take(if thorough { P9.len() } else { 12 }).chain(spos::LOSING.iter()).collect();
     for chunk in list.chunks(4) {
         *idx += 1;
